@@ -350,6 +350,9 @@ def gen_world_config(rng, focus, arith=None, d=None, names_kind=None):
             if rng.random() < 0.5:
                 iv["n_inner"] = rng.randint(1, 2)
             explainers.append(iv)
+    if arith == "float" and all(e["cls"] == "pfi" for e in explainers) and \
+            model["family"] in ("linear", "hash", "inter", "const") and rng.random() < 0.12:
+        loss = {"family": "npint16", "seed": 0, "sig": loss.get("sig", "pos")}
     if arith == "exact" and loss["family"] in ("river", "bool01"):
         # a discontinuous loss needs exactly reproducible running means: no default (double) alpha
         for e in explainers:
@@ -475,7 +478,8 @@ def gen_batch_config(rng, arith=None, names_kind=None, classes=None):
             imputers.append({"kind": "stub", "seed": rng.getrandbits(32)})
             e["imputer"] = len(imputers) - 1
         explainers.append(e)
-    return {"arith": arith, "names": names, "names_kind": nk, "seed": rng.getrandbits(32), "values": "unique",
+    return {"arith": arith, "names": names, "names_kind": nk, "seed": rng.getrandbits(32),
+            "values": "unique" if rng.random() < 0.7 else "unique0",
             "model": model, "loss": loss, "storages": storages, "imputers": imputers, "explainers": explainers,
             "rng": wchoice(rng, [("perop", 60), ("tape", 25), ("once", 15)]), "record_draws": True}
 
